@@ -297,6 +297,19 @@ fn op_hist<IntT: for<'a> UInt<'a>>(c: &Case, scratch: &str) -> String {
                     generic_modes::merge(&first, &[other], &out);
                     std::fs::rename(format!("{out}.skf"), &cur).unwrap();
                 }
+                "mergen" => {
+                    // several files in one merge call: mergen/<table>&<table>&...
+                    let mut others: Vec<String> = Vec::new();
+                    for (i, t) in f[1].split('&').enumerate() {
+                        let other = format!("{dir}/other{step}_{i}.skf");
+                        make_array::<IntT>(k, rc, t).save(&other).unwrap();
+                        others.push(other);
+                    }
+                    let first = MergeSkaArray::<IntT>::load(&cur).unwrap();
+                    let out = format!("{dir}/m{step}");
+                    generic_modes::merge(&first, &others, &out);
+                    std::fs::rename(format!("{out}.skf"), &cur).unwrap();
+                }
                 "delete" => {
                     let mut a = MergeSkaArray::<IntT>::load(&cur).unwrap();
                     let names: Vec<&str> = if f[1] == "~" { vec![] } else { f[1].split('+').collect() };
@@ -343,9 +356,10 @@ fn op_hist<IntT: for<'a> UInt<'a>>(c: &Case, scratch: &str) -> String {
                 } else {
                     String::new()
                 };
-                // a refused operation must leave the current file as it was
+                // a refused operation must leave the current file as it was and write no output file
                 let after = MergeSkaArray::<IntT>::load(&cur).map(|a| dump_array(&a)).unwrap_or("unreadable".into());
-                return format!("step{}:{};file={}", step, classify_panic(&msg), after);
+                let left = ["", ".skf"].iter().any(|e| std::path::Path::new(&format!("{dir}/m{step}{e}")).exists());
+                return format!("step{}:{}{};file={}", step, classify_panic(&msg), if left { "+output-written" } else { "" }, after);
             }
         }
     }
